@@ -23,6 +23,7 @@ CLAIMED = {
  "C10": ("§6 C10", "Vector construction from Python lists of every element family (bool/int/float/str/date/datetime/np scalars/timedelta64/objects) with None / NaN at any position, with and without an explicit dtype: inferred dtype and missing-value representative, is_na positions, tolist values, rebuild-equality, na_dtype/na_value, drop_na/replace_na - for ALL symbolic element values within the bounds; equal() as an equivalence relation over three symbolic vectors."),
  "C14": ("§6 C14", "Alias forwarding: each of the five module-level read functions called with every subset of its keyword arguments (distinguishable sentinels) hands exactly those values to the class method and returns its result. Restriction: DataFrame.from_json / ListOfDicts.from_json / ListOfDicts.read_csv with a column/key restriction equal read-everything-then-select for all ragged record shapes, requested orders and integer values within the bounds (json / csv / file layer stubbed by contract in the symbolic run, real in the replay)."),
  "C18": ("§6 C18", "GeoJSON.read on an arbitrary symbolic feature collection (ragged property sets, null values, null/Point geometry, extra top-level members; json and the file layer stubbed by contract): one row per feature, a column per property key, geometry objects unchanged, other members in metadata. GeoJSON.write: the hand-assembled text (captured as a template whose json.dumps blobs are valid by contract) parses as JSON with the same features and metadata, and every member name inserted verbatim must be a valid JSON string literal for ALL names (bounded symbolic string); outside the recorded known-finding region."),
+ "C13": ("§6 C13", "ListOfDicts and JSON legs end to end (one record per row, one field per column, null iff missing, back-conversion with the same names, values, missing positions and dtype) for ALL cell values; from_pandas / from_arrow as units against an arbitrary foreign column (contract stub: to_numpy() + null mask) for ALL cell values and null positions incl. the first; the real pandas / pyarrow round trip is observed through witness replay only."),
  "C05": ("§6 C05", "For every pair of frames within the bounds and ALL key and payload cells, the five joins agree with a nested-loop first-match reference (missing keys never match, renamed keys, empty sides) and do not raise."),
 }
 m = {"version": 1, "setup_cmd": "./bootstrap.sh",
